@@ -178,6 +178,9 @@ func (vc *VC) resolveLocalAtBlock(ev *Eval, name string, blk *ssa.BasicBlock) (E
 			continue
 		}
 		for _, in := range b.Instrs {
+			if b == blk && vc.atInstr != nil && in == vc.atInstr {
+				break // names denote their values just before this instruction (at-call assertions)
+			}
 			dr, ok := in.(*ssa.DebugRef)
 			if !ok {
 				continue
